@@ -720,6 +720,12 @@ fn circular_arc_properties(a: Pos, b: Pos, c: Pos) -> Option<CircularArcProperti
         y: (a_sq * (c - b).x + b_sq * (a - c).x + c_sq * (b - a).x) / d,
     };
 
+    // Numerically the points may still be collinear (`d` rounds to zero),
+    // in which case there is no circle through them
+    if !(centre.x.is_finite() && centre.y.is_finite()) {
+        return None;
+    }
+
     let d_a = a - centre;
     let d_c = c - centre;
 
